@@ -193,8 +193,7 @@ Fixpoint fills_walk (k : option nat) (items : list item) (seen : hist) (inflight
 
 (* C04, "while it waits for the parser it lets the other side make progress": the harness applies a stimulus only
    when the stream has returned Pending (the runner is quiescent). At such a point, with NO attempt in flight and the
-   run not tripped, nothing that has been ingested may still be waiting to be started (retries waiting for their
-   delay aside): scenarios already handed over must not sit idle until the parser delivers its next item. *)
+   run not tripped, nothing that has been ingested may still be waiting to be started (retries included: see below): scenarios already handed over must not sit idle until the parser delivers its next item. *)
 Fixpoint idle_walk (items : list item) (seen : hist) (inflight : list N) (started : list N) (retrying : list N)
                    (tripped : bool) (ff : bool) (h : hist) : bool :=
   match h with
@@ -207,8 +206,10 @@ Fixpoint idle_walk (items : list item) (seen : hist) (inflight : list N) (starte
     | HEv (EvScen _ _ s rt ScFinished) =>
       let evs := flat_map (fun x => match x with EvScen _ _ s' rt' e => if (s' =? s) && retr_eqb rt rt' then [e] else [] | _ => [] end)
                           (events_of seen') in
-      let again := attempt_failed evs && match rt with Some (_, l) => negb (l =? 0) | None => false end
-                   && retries_at_once items s in
+      (* with or without a delay: with nothing in flight the runner SLEEPS until the deadline (under the clock hook a
+         sleep is an immediate advance), so by the next quiescent point the retry has been started — a runner that
+         spins instead of sleeping is caught here with the retry still waiting *)
+      let again := attempt_failed evs && match rt with Some (_, l) => negb (l =? 0) | None => false end in
       idle_walk items seen' (filter (fun x => negb (x =? s)) inflight) started
                 (if again then s :: retrying else retrying)
                 (tripped || (ff && is_final_failure evs rt)) ff t
